@@ -93,6 +93,15 @@ func newVecSUT(rng *rand.Rand, kind string, metric comet.DistanceKind, vg func(d
 		if err := s.idx.Train(nodes); err != nil {
 			return s, g, fmt.Errorf("train: %w", err)
 		}
+		if rng.IntN(4) == 0 {
+			// Train a second time on the very same data: the same index as after one training (or an error)
+			d1, ok := trainedStateDigest(s.idx)
+			if err := s.idx.Train(nodes); err == nil && ok {
+				if d2, _ := trainedStateDigest(s.idx); d2 != d1 {
+					return s, g, fmt.Errorf("train: a second Train on the same data changed the centroids / codebooks (kind=%s ntrain=%d)", kind, nTrain)
+				}
+			}
+		}
 		if scribbleAndCheck(s.idx, nodes) {
 			return s, g, fmt.Errorf("train: the trained centroids / codebooks changed when the caller overwrote its training vectors after Train had returned (they alias the training data); kind=%s ntrain=%d", kind, nTrain)
 		}
